@@ -29,6 +29,7 @@ import (
 	"google.golang.org/protobuf/types/known/structpb"
 
 	"verifharness/engine"
+	"verifharness/recstore"
 	"verifharness/world"
 )
 
@@ -732,7 +733,11 @@ func runStoreOnceNodeIDs(c *engine.Ctx, wrap bool) {
 // register / remove / connect sequences
 
 func runSeq(c *engine.Ctx, ac advCase) {
-	s := world.MustServer(world.ServerCfg{Backend: world.Inmem})
+	var frec *recstore.Rec
+	s := world.MustServer(world.ServerCfg{Backend: world.Inmem, Wrap: func(in nodeenrollment.Storage) nodeenrollment.Storage {
+		frec = recstore.New(in)
+		return frec.Wrap()
+	}})
 	defer s.Close()
 	lw, err := world.NewLW(s, world.LWCfg{})
 	if err != nil {
@@ -816,6 +821,30 @@ func runSeq(c *engine.Ctx, ac advCase) {
 			} else {
 				now := time.Now()
 				chain = [][]byte{world.MintSelfSigned(st.n.K, world.LeafSpec{SubjectKeyID: st.n.K.Pkix, NotBefore: now.Add(-time.Hour), NotAfter: now.Add(time.Hour), EKU: []x509.ExtKeyUsage{x509.ExtKeyUsageClientAuth}})}
+			}
+			if !st.registered && frec != nil {
+				// first, on every other such step: the connection attempt while the server's storage has a hiccup: the first (or second)
+				// storage operation of the handshake fails with an error that says nothing about absence. A node
+				// without a record is not authenticated on the strength of what the server saw earlier.
+				for _, pos := range []int{1, 2} {
+					nonce := world.RandBytes(nodeenrollment.NonceSize)
+					req := &types.GenerateServerCertificatesRequest{CertificatePublicKeyPkix: st.n.K.Pkix, Nonce: nonce, NonceSignature: ed25519.Sign(st.n.K.Priv, nonce)}
+					cs := world.ClientSpec{Protos: append(world.AuthProtos(req), world.CertPref(curID)), Chain: chain, Signer: st.n.K.Priv}
+					frec.Arm(pos, recstore.FaultGeneric)
+					rec, res, ok := runClient(c, lw, cs)
+					fired := frec.Fired()
+					frec.Arm(0, "")
+					if !ok {
+						return
+					}
+					c.R.Eval(fmt.Sprintf("seq %s step %d storage fault at %d", ac.Ops, step, pos), true)
+					if rec.Authenticated() {
+						c.R.Violation(fmt.Sprintf("unauthorized-auth:sequence,storage-fault,everRegistered=%v", st.everHad), fmt.Sprintf("node authenticated at step %d of %q although its record is not in storage (storage operation %d of the handshake failed with a generic error: %v)", step, ac.Ops, pos, fired), ac)
+					} else if fired {
+						c.R.Count("seq_unregistered_rejected_under_a_storage_fault", 1)
+					}
+					finishConn(rec, res)
+				}
 			}
 			cs := world.ClientSpec{Protos: append(world.AuthProtos(req), world.CertPref(curID)), Chain: chain, Signer: st.n.K.Priv}
 			rec, res, ok := runClient(c, lw, cs)
@@ -1227,6 +1256,7 @@ func runTLSAdv(c *engine.Ctx) engine.Result {
 	r.Require("oracle_forbids:no_record_or_bad_signature", 10)
 	r.Require("mutations_that_still_decode", 10)
 	r.Require("seq_registered_connects", 10)
+	r.Require("seq_unregistered_rejected_under_a_storage_fault", 20)
 	r.Require("worlds_with_storage_wrapper", 3)
 	r.Require("replaced_roots_rejected", 4)
 	r.Require("other_servers_roots_rejected", 4)
